@@ -8,13 +8,13 @@ open Gen.N
 
 /-! ### details dictionaries -/
 
-theorem Dict.get?_set (d : Dict) (k k' : String) (v : WVal) :
+theorem Dealer.dictGet?_set (d : Dict) (k k' : String) (v : WVal) :
     Dict.get? (Dict.set d k v) k' = if k = k' then some v else Dict.get? d k' := by
   by_cases h : k = k'
   · subst h; simp [Dict.get?_set_eq]
   · simp [h, Dict.get?_set_ne d v h]
 
-theorem discloseInto_get?_other (role : String) (sid : Nat) (pd d : Dict) {k : String} (h1 : k ≠ role)
+theorem Dealer.discloseInto_get?_other (role : String) (sid : Nat) (pd d : Dict) {k : String} (h1 : k ≠ role)
     (h2 : k ≠ role ++ "_authid") (h3 : k ≠ role ++ "_authrole") :
     Dict.get? (discloseInto role sid pd d) k = Dict.get? d k := by
   unfold discloseInto
@@ -89,7 +89,7 @@ theorem invDetails_get?_identity (env : DEnv) (reg : Reg) (caller callee : SessK
 theorem discloseCaller_get?_opt (env : DEnv) (caller : SessKey) (d : Dict) {k : String}
     (h1 : k ≠ RoleCaller) (h2 : k ≠ RoleCaller ++ "_authid") (h3 : k ≠ RoleCaller ++ "_authrole") :
     Dict.get? (discloseCaller env caller d) k = Dict.get? d k :=
-  discloseInto_get?_other _ _ _ _ h1 h2 h3
+  Dealer.discloseInto_get?_other _ _ _ _ h1 h2 h3
 
 /-- `timeout` in the INVOCATION details: present iff the CALL has a positive timeout that is forwarded -/
 theorem invDetails_get?_timeout (env : DEnv) (reg : Reg) (caller callee : SessKey) (opts : Dict) (proc : String) :
